@@ -22,7 +22,9 @@
 #include <nano/gboost/function.h>
 #include <nano/linear/function.h>
 #include <nano/loss.h>
+#include <chrono>
 #include <set>
+#include <thread>
 
 using namespace nano;
 
@@ -40,6 +42,7 @@ std::atomic<uint64_t> g_epoch{0};  ///< id of the observed call
 std::atomic<uint64_t> g_tasks{0};  ///< tasks started by pool workers
 std::atomic<uint64_t> g_serial{0}; ///< map() calls that took the serial path
 std::atomic<uint64_t> g_seen[SLOTS];
+std::atomic<int>      g_spread{0}; ///< 0: leave the schedule alone, 1: yield before every task, 2: yield before + pause after every task
 thread_local int64_t  t_slot = -1;
 
 void hook(int point, const void*)
@@ -52,6 +55,18 @@ void hook(int point, const void*)
         }
         g_seen[t_slot].store(g_epoch.load(RLX), RLX);
         g_tasks.fetch_add(1, RLX);
+        // (no pool lock is held here) let the other workers take their share of the batches
+        if (g_spread.load(RLX) != 0)
+        {
+            std::this_thread::yield();
+        }
+    }
+    else if (point == nano::verif::worker_after_run)
+    {
+        if (g_spread.load(RLX) == 2)
+        {
+            std::this_thread::sleep_for(std::chrono::microseconds(20));
+        }
     }
     else if (point == nano::verif::map_serial)
     {
@@ -950,6 +965,11 @@ void run_case(vf::ctx_t& c)
         c.inconclusive("no-finite-reference");
         return;
     }
+
+    // perturbation of the worker schedule (not part of the decoded case: the results must not depend on it)
+    const auto spread = static_cast<int>(rng.integer(0, 3) % 3);
+    g_spread.store(spread, RLX);
+    c.count("schedule:" + std::string(spread == 0 ? "untouched" : (spread == 1 ? "yield-before-task" : "yield-before+pause-after-task")));
 
     monitor_t m(c);
     m.configs = configs;
